@@ -227,6 +227,16 @@ class MultiDictHistory(Scenario):
                 out.probe("combined_view_over_key_without_values")
             if not self.compare(out, pre, "CombinedMultiDict", got_c, want_c, after):
                 return False
+            # a plain mapping may be wrapped as well (single-key reads go through item access only)
+            plain = {k_: vs[0] for k_, vs in slots[0][1].d.items() if vs}
+            cp = ds.CombinedMultiDict([plain, slots[1][0]])
+            for k_ in KEYS:
+                want_v = plain[k_] if k_ in plain else slots[1][1].getitem(k_)
+                got_v = guard(lambda: cp[k_])
+                got_g = guard(lambda: cp.get(k_, "D"))
+                if got_v != want_v or got_g != ("D" if want_v is KEYERROR else want_v):
+                    out.violate(f"{pre}/CombinedMultiDict/plain-mapping-wrapped/[k]-differs", f"[{k_}] -> {got_v!r}, get -> {got_g!r}, expected {want_v!r} over {plain!r} and {slots[1][1].d!r}")
+                    return False
             # equality and hashing of the view must be consistent with each other
             # (fresh views: the long-lived one may have cached a hash before the wrapped dicts changed)
             empty = ds.CombinedMultiDict([])
